@@ -9,7 +9,7 @@ import tempfile
 
 VERIF = os.path.dirname(os.path.dirname(os.path.abspath(__file__)))
 sys.path.insert(0, VERIF)
-from sa import alpha, core  # noqa: E402
+from sa import alpha, core, lispcanon  # noqa: E402
 from sa.run import analyse  # noqa: E402
 
 root = "/repo"
@@ -26,7 +26,19 @@ for d, _dn, fs in os.walk(os.path.join(root, "src", "basilisp")):
             dst = os.path.join(tmp, os.path.relpath(p, root))
             os.makedirs(os.path.dirname(dst), exist_ok=True)
             open(dst, "w", encoding="utf-8").write(out)
-print(f"{n} locals renamed; overlay {tmp}")
+ln = 0
+if "--no-lisp" not in sys.argv:
+    for d, _dn, fs in os.walk(os.path.join(root, "src", "basilisp")):
+        for f in fs:
+            if f.endswith(".lpy"):
+                p = os.path.join(d, f)
+                rel = os.path.relpath(p, root)
+                out, k = lispcanon.rename_locals(open(p, encoding="utf-8").read(), rel)
+                ln += k
+                dst = os.path.join(tmp, rel)
+                os.makedirs(os.path.dirname(dst), exist_ok=True)
+                open(dst, "w", encoding="utf-8").write(out)
+print(f"{n} python locals, {ln} lisp locals renamed; overlay {tmp}")
 known = core.load_known()
 for prop in props:
     try:
